@@ -327,7 +327,7 @@ func canonical(kind string, c call, failing string) (call, bool) {
 	switch posRole(c.Pos) {
 	case "out":
 		n = call{Fn: "random", Pos: c.Pos, Gap: c.Gap, Case: c.Case}
-	case "cond":
+	case "cond", "ord":
 		n = call{Fn: "date", Form: "now", Pos: c.Pos, Gap: c.Gap, Case: c.Case}
 	default:
 		n = call{Fn: "date", Form: "now", Pos: c.Pos, Gap: c.Gap, Case: c.Case}
